@@ -66,7 +66,7 @@ Proof.
   assert (HndP : NoDup (map fst pairs)).
   { rewrite Efst. assert (H := Permutation_NoDup (Permutation_sym PL) HndL).
     apply NoDup_app_inv in H. tauto. }
-  fold idxL. split; [|unfold idxL in *; rewrite map_length in LL; lia].
+  fold idxL. split; [|unfold idxL in *; rewrite map_length in LL; rewrite Nat.add_comm; exact LL].
   exists (A ++ pairs). split; [|split; [|split; [|split]]].
   - rewrite map_app, <- app_assoc. rewrite Efst.
     eapply Permutation_trans; [apply Permutation_app_head; exact PL|exact PA].
@@ -82,7 +82,9 @@ Proof.
       apply assign_all_in; [exact HndP|]. destruct p; exact Hp.
   - intros c Hg Hc'. rewrite map_app, in_app_iff in Hc'.
     rewrite at_tab by exact Hg. rewrite assign_all_notin by tauto. apply Hout; tauto.
-  - unfold idxL in LL. rewrite map_length in LL. lia.
+  - apply (proj1 (Nat.add_cancel_l _ _ (length R))).
+    unfold idxL in LL. rewrite map_length in LL.
+    eapply eq_trans; [exact LL|]. eapply eq_trans; [exact Hlen|]. symmetry. exact LV.
 Qed.
 
 Lemma dinv_final n s L0 Vs0 W00 W' : dinv n s L0 Vs0 W00 [] [] W' ->
@@ -122,7 +124,7 @@ Proof.
     unfold deal_period. cbv beta iota zeta. intros H.
     eapply (IH period (m - period)%nat); eauto.
     assert (length R = Nat.min m period) by (unfold R; rewrite firstn_length, HPlen; lia).
-    lia.
+    unfold cell in *. lia.
 Qed.
 
 Lemma supp_In und n s M c : In c (supp und n s M) <->
@@ -361,4 +363,12 @@ Proof.
     fold Spos Ppos in L1. fold Sneg Pneg in L2. lia. }
   fold rest rest'. rewrite E1, E2, E3, E3', Elen. reflexivity.
 Qed.
+
+(* everything the assembly below needs, in one statement *)
+Lemma two_passes_facts :
+  (forall c, ingrid n c -> in_tri und c = true -> Z.sgn (at_ W2 c) = Z.sgn (at_ Wr c)) /\
+  (forall c, ingrid n c -> in_tri und c = false -> at_ W2 c = 0) /\
+  (forall phi, zsum (map (fun c => phi (at_ W2 c)) (univ und n)) =
+               zsum (map (fun c => phi (at_ Wc c)) (univ und n))).
+Proof. split; [exact W2_sgn|split; [exact W2_lower|exact univ_phi]]. Qed.
 End TwoPasses.
